@@ -364,4 +364,17 @@ def parseTop (fuel : Nat) (raw : Val) (env : Env) (ign : Bool := false) : R (Sch
       let (s, st) ← parse fuel raw "" { names := [], env := env } none ign
       pure (s, st.env)
 
+/-- what `parse_schema` is handed: a raw schema, or the object an earlier call returned for a record
+    (it carries `__fastavro_parsed` and the `__named_schemas` of that call) -/
+inductive SchemaArg where
+  | raw (v : Val)
+  | marked (s : Schema) (named : Env)
+
+/-- `parse_schema(schema, named_schemas)`: a marked object is returned as it is, its named schemas
+    copied into the caller's dictionary -/
+def parseSchema (fuel : Nat) (a : SchemaArg) (env : Env) : R (Schema × Env) :=
+  match a with
+  | .raw v => parseTop fuel v env
+  | .marked s named => .ok (s, named.foldl (fun e kv => e.set kv.1 kv.2) env)
+
 end Parse
